@@ -83,6 +83,7 @@ type Contracts struct {
 	Order   []string
 	Files   []string
 	Consts  map[string]string
+	Types   map[string]string // spec type aliases: name -> Go type expression
 	Effects []EffectDecl
 }
 
@@ -95,7 +96,7 @@ type EffectDecl struct {
 	File   string
 }
 
-var keywordRe = regexp.MustCompile(`^(exec|replay-input|replay-setup|pred|fun|axiom|func|extern|requires|ensures|modifies|loop|behavior|props|partial|pure|inline|ghost|assert-at|assume-at|effects|trusted|nopanic|panics-when|ensures-on-panic|package|const|lemma)\b`)
+var keywordRe = regexp.MustCompile(`^(type|exec|replay-input|replay-setup|pred|fun|axiom|func|extern|requires|ensures|modifies|loop|behavior|props|partial|pure|inline|ghost|assert-at|assume-at|effects|trusted|nopanic|panics-when|ensures-on-panic|package|const|lemma)\b`)
 
 type rawLine struct {
 	text string
@@ -105,7 +106,7 @@ type rawLine struct {
 
 // LoadContracts reads every verif_contracts*.go under root plus extra spec files.
 func LoadContracts(root string, extra []string) (*Contracts, error) {
-	cs := &Contracts{Funcs: map[string]*FuncContract{}, Specs: map[string]*SpecFun{}, Ghosts: map[string]*GhostVar{}, Consts: map[string]string{}}
+	cs := &Contracts{Funcs: map[string]*FuncContract{}, Specs: map[string]*SpecFun{}, Ghosts: map[string]*GhostVar{}, Consts: map[string]string{}, Types: map[string]string{}}
 	var files []string
 	filepath.Walk(root, func(p string, info os.FileInfo, err error) error {
 		if err != nil {
@@ -193,6 +194,12 @@ func (cs *Contracts) loadFile(path string) error {
 			cs.Specs[sf.Name] = sf
 			cs.Order = append(cs.Order, sf.Name)
 			cur = nil
+		case "type":
+			parts := strings.SplitN(rest, "=", 2)
+			if len(parts) != 2 {
+				return fail(fmt.Errorf("type alias needs 'name = go type'"))
+			}
+			cs.Types[strings.TrimSpace(parts[0])] = strings.TrimSpace(parts[1]) + "\x00" + pkg
 		case "exec":
 			parts := strings.SplitN(rest, "=", 2)
 			sf := cs.Specs[strings.TrimSpace(parts[0])]
